@@ -78,6 +78,14 @@ CLAIMED = {
                      "point accept/reject boundary are not decided.",
                 note=TB + "; SQLite as parser of the embedded SQL; frozen already-normalised parameter table (DESIGN.md A.3)",
                 tech="who-may-reach / must-pass-through over call graph and bind sites + call-order check"),
+    "C10": dict(level="other", ref="5 C10",
+                text="NARROW CLAIM: only the refusal-atomicity clause ('refuses ... without modifying the value') is decided, as a "
+                     "reachability obligation on the CFGs of cif_value_parse_numb and cif_value_init_numb (every store through the "
+                     "target value is followed only by `return CIF_OK`), plus the refusal codes. Acceptance of exactly the numeric "
+                     "syntax, correct rounding in both directions and formatting quantify over doubles and digit strings; no static "
+                     "argument in reach bounds them and they are NOT decided by this check.",
+                note=TB + "; everything numeric in C10 is outside the reach of this technique",
+                tech="CFG reachability (store-then-only-success-exit)"),
     "C11": dict(level="other", ref="5 C11",
                 text="Narrow structural claim: the dialect-selecting magic code agrees in all places where it is emitted or compared "
                      "(incl. the common 7-character prefix), and CIF_WRONG_ENCODING / the BOM CIF_DISALLOWED_CHAR / SET_V1 sit exactly "
